@@ -285,6 +285,10 @@ def transcription_case(draw, velocity=False):
     params = dict(NOTE_KW)
     if velocity:
         params["velocity_tolerance"] = st.sampled_from([0.1, 0.05, 0.3])
+    # notes need not be listed in onset order: one case in three is shuffled (a sorted list is a fixed point of an in-place sort)
+    if draw(st.integers(0, 2)) == 0:
+        ref = [ref[i] for i in draw(st.permutations(list(range(len(ref)))))]
+        est = [est[i] for i in draw(st.permutations(list(range(len(est)))))]
     return {"shape": shape, "ref": ref, "est": est, "kw": subset(draw, params)}
 
 
